@@ -107,10 +107,28 @@ theorem payloadGate_ok {s p env p'} (h : payloadGate s p env = .ok p') :
       refine ⟨hm, by simpa using hdn, ?_⟩
       split at h
       · next hv => cases h; exact Or.inl ⟨hv, rfl⟩
-      · next q hv => cases h; exact Or.inr hv
+      · next q hv =>
+        split at h
+        · cases h
+        · cases h; exact Or.inr hv
       · cases h
       · cases h
   · next hm => cases h; exact Or.inl ⟨by simpa using hm, rfl⟩
+
+/-- what the gate lets through is never empty when the request's own payload is not: an alteration to nothing is refused -/
+theorem payloadGate_nonempty {s p env p'} (h : payloadGate s p env = .ok p') (hp : p ≠ []) : p' ≠ [] := by
+  unfold payloadGate at h
+  split at h
+  · split at h
+    · cases h
+    · split at h
+      · cases h; exact hp
+      · split at h
+        · cases h
+        · next hne => cases h; intro h0; subst h0; simp at hne
+      · cases h
+      · cases h
+  · cases h; exact hp
 
 theorem broadcastCheck_ok {s u i raw q p env c p'} (hc : broadcastCheck s u i raw q p env = .ok (c, p')) :
     (∃ h, Id.parseChannelId raw = some (h, s.cfg.domain) ∧ findChan s.chans h = some c) ∧
